@@ -149,21 +149,16 @@ func checkC12(c *Ctx) {
 									return
 								}
 								seen[v] = true
-								if c2, ok := v.(*ssa.Call); ok {
-									if l := lenOf(c2); l != nil {
-										shiftLen = append(shiftLen, stripConv(l))
-										return
-									}
-								}
 								if bo, ok := v.(*ssa.BinOp); ok {
 									walk(bo.X, d+1)
 									walk(bo.Y, d+1)
+									return
 								}
-								if ph, ok := v.(*ssa.Phi); ok {
-									for _, e := range ph.Edges {
-										walk(e, d+1)
-									}
+								if _, isConst := v.(*ssa.Const); isConst {
+									return
 								}
+								// a length quantity: len(x), or a value (clamped length) used as such
+								shiftLen = append(shiftLen, v)
 							}
 							walk(call.Call.Args[2], 0)
 						}
@@ -175,13 +170,25 @@ func checkC12(c *Ctx) {
 				for _, l := range shiftLen {
 					same := false
 					for _, cv := range conv {
-						if l == cv {
+						// the quantity is len(converted bytes) ...
+						if c2, ok := l.(*ssa.Call); ok {
+							if lx := lenOf(c2); lx != nil && stripConv(lx) == cv {
+								same = true
+							}
+						}
+						// ... or the upper bound the converted bytes were cut at
+						if sl, ok := cv.(*ssa.Slice); ok && sl.Low == nil && sl.High != nil && stripConv(sl.High) == l {
 							same = true
+						}
+					}
+					if _, isLen := l.(*ssa.Call); !isLen {
+						if _, isPhi := l.(*ssa.Phi); !isPhi {
+							same = true // not a length quantity the rule understands: nothing claimed
 						}
 					}
 					if !same {
 						ok = false
-						msg = funcKey(fn) + ": the shift that drops the excess bits is computed from len(" + descValue(l, 0) + ") while the bytes converted are " + descValue(conv[0], 0) + ": for digests longer than the order the excess is counted on the untruncated digest and too many bits are dropped"
+						msg = funcKey(fn) + ": the shift that drops the excess bits is computed from " + descValue(l, 0) + " while the bytes converted are " + descValue(conv[0], 0) + ": for digests longer than the order the excess is counted on the untruncated digest and too many bits are dropped"
 					}
 				}
 			}
